@@ -85,6 +85,16 @@ BUILT = {
          "All 1050 (family, n, tolerance, field) cells are checked on every run (exhaustive); the closed-form reference is itself cross-checked against integer recurrences.",
          "Per-coefficient relative bound 16 eps n (Chebyshev, built by FFT products: relative to the largest coefficient).",
          "DESIGN.md §4 C18"),
+ "C07": ("exploration",
+         "trace monitor over the abscissa log of the function under test (containment, evaluation budget) plus result oracle (sign change within tolerance) on random and exhaustive exact-hit grids; Err-case enumeration",
+         "Millions of bracketing-solver runs per tier: every abscissa handed to the user function must lie in the bracket, evaluation counts must meet the solver's bound (hard budget stops run-away loops), Ok results must have a sign change within tolerance; the complete dyadic exact-hit grid and a dedicated midpoint stage reach the cases random inputs never hit.",
+         "Zero tolerance and ITP k1 = 0 are not exercised (documentation ambiguous); ITP budget n_half + 2 n0 + 6.",
+         "DESIGN.md §4 C07"),
+ "C08": ("exploration",
+         "ground-truth monitor on constructed systems/polynomials/contractions with known roots inside proven convergence regions; call counters with hard budgets; singular and cap-exhausted cases must give Err",
+         "Hundreds of thousands (quick) to millions (thorough) of Newton/secant/newton_polynomial/muller/steffensen runs against constructed roots, including starts on the root and at the origin, affine systems, exactly singular integer systems and exhausted caps.",
+         "Start regions are the rigorous Newton-Kantorovich / basin radii; muller's residual bound is asserted only for starts near a root.",
+         "DESIGN.md §4 C08"),
 }
 
 PENDING_REASON = "check not built yet in this commit (runtime monitor designed in DESIGN.md §4; will be claimed when its harness module lands)"
